@@ -445,11 +445,15 @@ def _mpu_append_chunks_op(
 ):
     # expect 1 MPUChunk per partition
     (mpu,) = mpus
+    # "final" only applies once all the chunks of this partition were appended,
+    # until then keep enough data and write credits for what is still to come
+    is_final, mpu.is_final = mpu.is_final, False
     for chunk in chunks:
         data, chunk_id = chunk
         mpu.append(data, chunk_id)
         if write is not None and spill_sz > 0:
             mpu.maybe_write(write, spill_sz)
+    mpu.is_final = is_final
 
     return [mpu]
 
